@@ -234,10 +234,10 @@ type DeviceID struct {
 	IPMIMinor    byte // high nibble
 	// additional device support bits 7..0
 	Chassis, Bridge, EvtGen, EvtRcv, FRU, SEL, SDRRepo, Sensor bool
-	IANA    uint32 // 24 bits (20 used)
-	Product uint16
-	Aux     *[4]byte
-	Res1    byte // reserved bits [6:4] of byte 2 (ignored by decoders)
+	IANA                                                       uint32 // 24 bits (20 used)
+	Product                                                    uint16
+	Aux                                                        *[4]byte
+	Res1                                                       byte // reserved bits [6:4] of byte 2 (ignored by decoders)
 }
 
 func (d *DeviceID) Bytes() []byte {
@@ -303,13 +303,13 @@ func (s *SessionInfo) Bytes() []byte {
 }
 
 type ChassisStatus struct {
-	Policy                                       byte // 2 bits
-	CtlFault, Fault, Interlock, Overload, On     bool
+	Policy                                         byte // 2 bits
+	CtlFault, Fault, Interlock, Overload, On       bool
 	IPMIOn, LFault, LInterlock, LOverload, LACFail bool
-	IdentSupported                               bool
-	IdentState                                   byte // 2 bits
-	Fan, Drive, Lockout, Intrusion               bool
-	Buttons                                      *byte
+	IdentSupported                                 bool
+	IdentState                                     byte // 2 bits
+	Fan, Drive, Lockout, Intrusion                 bool
+	Buttons                                        *byte
 }
 
 func (c *ChassisStatus) Bytes() []byte {
@@ -325,11 +325,11 @@ func (c *ChassisStatus) Bytes() []byte {
 }
 
 type SDRRepoInfo struct {
-	VerMajor, VerMinor byte // digits; wire: [3:0] major [7:4] minor
-	Count, Free        uint16
-	AddTS, EraseTS     uint32
-	Overflow           bool
-	ModalBits          byte // [6:5]
+	VerMajor, VerMinor                     byte // digits; wire: [3:0] major [7:4] minor
+	Count, Free                            uint16
+	AddTS, EraseTS                         uint32
+	Overflow                               bool
+	ModalBits                              byte // [6:5]
 	Delete, PartialAdd, Reserve, AllocInfo bool
 }
 
